@@ -808,6 +808,7 @@ def proof_WriteRawTo(ex, st, args, ctx):
     p, w = args
     if p.coords is None:
         p.coords = [z3.BitVec(ex.newsym('proofcoord'), BIG) for _ in range(8)]
+    st.events.append(('proof_marshalled', p))
     cells = []
     for c in p.coords:
         cells.extend(byte_cells_of_bv(c, 32))
@@ -2588,3 +2589,31 @@ def fmt_Sscan(ex, st, args, ctx):
 
 
 BASE.update({'fmt.Sscan': fmt_Sscan})
+
+
+# ------------------------------------------------------------------------------------------ fingerprints (caches keyed by a digest of the request)
+def be_AppendUint32(ex, st, args, ctx):
+    used('binary.BigEndian.AppendUint32: appends the 4-byte big-endian encoding')
+    _, buf, v = args
+    return ex.append(st, buf, new_bytes(ex, st, byte_cells_of_bv(v, 4), 4), None)
+
+
+def _digest_uf(ex, name, bits):
+    key = (name, BYTECAP)
+    if key not in ex.uf:
+        ex.uf[key] = z3.Function(name, z3.BitVecSort(64), z3.BitVecSort(8 * BYTECAP), z3.BitVecSort(bits))
+    return ex.uf[key]
+
+
+def sha256_Sum256(ex, st, args, ctx):
+    used('crypto/sha256.Sum256 (and other digests): an uninterpreted function of (length, bytes) - two digests are equal in a model only if the solver can make the byte strings equal or chooses a collision; collisions are filtered by the native replay')
+    data = args[0]
+    if data is NIL or getattr(data, 'obj', None) is None:
+        ln, packed = bvval(0, 64), bvval(0, 8 * BYTECAP)
+    else:
+        ln, packed = pack(ex, st, data)
+    h = _digest_uf(ex, 'sha256', 256)(ln, packed)
+    return Array(byte_cells_of_bv(h, 32))
+
+
+BASE.update({'(encoding/binary.bigEndian).AppendUint32': be_AppendUint32, 'crypto/sha256.Sum256': sha256_Sum256})
